@@ -1,5 +1,30 @@
 import chunk as _c
 import nodettl as N
+def queued_requests(rng, n):
+    """a peer request that is admitted while the chunk is live but has to wait in the upload queue (the peer's one slot is taken by an
+    unacknowledged transfer) and is answered later, at an acknowledgement or a tick: by then the chunk may have expired (while a
+    later-expiring manifest for the id keeps the cache entry valid) or have been overwritten.  What reaches the peer then is judged
+    at THAT instant (event get via=peerlate)"""
+    out = []
+    for k in range(n):
+        line, d = N.reset_line(rng)
+        mn, mx = d["min"], d["max"]
+        t1 = mn
+        lines = [line, "store c=0 b=1 ttl=%d" % t1, "store c=1 b=2 ttl=%d" % mx, "peerreq c=1 p=1", "peerreq c=0 p=1"]
+        if rng.random() < 0.3:
+            lines.append("peerreq c=0 p=2")          # another peer's request is served at once
+        variant = k % 3
+        if variant == 0:      # deadline passes, a foreign manifest with a later expiry arrived meanwhile
+            lines += ["mk m=1 c=0 b=1 e=%d" % ((t1 + mx + 5) * 1000), "ingest m=1", "adv ms=%d" % (t1 * 1000 + rng.choice([0, 1, 200, 999]))]
+        elif variant == 1:    # overwritten with other bytes while waiting
+            lines += ["adv ms=%d" % rng.choice([0, 300]), "store c=0 b=5 ttl=%d" % mx]
+        else:                 # deadline passes, nothing else
+            lines += ["adv ms=%d" % (t1 * 1000 + rng.choice([0, 1, 500]))]
+        lines += [rng.choice(["peerack c=1 p=1 ok=1", "peerack c=1 p=1 ok=0", "tick"]), "tick", "peerack c=1 p=1", "get c=0" if False else "fetch c=0", "list", "adv ms=1000", "tick"]
+        out.append(lines)
+    return out
+
+
 def run(chk):
     thorough = chk.tier == "thorough"
     _c.run(chk)                      # ChunkStore level: TLC design model, state/transition cover, random
@@ -7,6 +32,7 @@ def run(chk):
     N.model_check(chk)
     N.run_driver(chk, N.model_sequences(chk, 4000 if thorough else 600, foreign_offset=4), "node-tlc-state-cover")
     N.run_driver(chk, N.random_behaviours(chk.rng, 3000 if thorough else 300, "c01"), "node-random-store-read")
+    N.run_driver(chk, queued_requests(chk.rng, 400 if thorough else 60), "node-queued-peer-requests")
     chk.assumptions += N.ASSUME
 
 
